@@ -524,7 +524,7 @@ func (x *Run) exec(fr *Frame, st *State, instr ssa.Instruction, outs *[]Outcome)
 		fr.env[ins] = Val{T: "0", S: SInt, Ty: ins.Type(), Iter: it}
 	case *ssa.Send:
 		ch := x.val(fr, st, ins.Chan)
-		closed := sel(x.arr(st, x.chClosedArr(ins.Chan.Type())), ch.T)
+		closed := sel(x.arr(st, x.chClosedFor(ch, ins.Chan.Type())), ch.T)
 		x.mayPanic(fr, st, not(closed), "send-on-closed", ins, outs)
 		st.events = append(st.events, Event{Name: "send", Args: []Val{ch, x.val(fr, st, ins.X)}})
 	case *ssa.Go:
@@ -641,7 +641,7 @@ func (x *Run) execUnOp(fr *Frame, st *State, ins *ssa.UnOp, outs *[]Outcome) {
 		st.events = append(st.events, Event{Name: "recv", Args: []Val{v, r}})
 		if ins.CommaOk {
 			ok := x.freshVal(st, "recvok", types.Typ[types.Bool])
-			closed := sel(x.arr(st, x.chClosedArr(ins.X.Type())), v.T)
+			closed := sel(x.arr(st, x.chClosedFor(v, ins.X.Type())), v.T)
 			st.assume(implies(not(closed), ok.T))
 			st.assume(implies(not(ok.T), eq(r.T, x.d.zero(ct.Elem()))))
 			fr.env[ins] = Val{S: "Tuple", Ty: ins.Type(), Tup: []Val{r, ok}}
